@@ -18,31 +18,52 @@ def plan(profiles, quick=300, thorough=30000, **kw):
     return d
 
 
+def trace(profiles, quick=60, thorough=3000, nopar=False, **kw):
+    d = {"engine": "trace", "args": {"profiles": profiles}, "quick": {"cases": quick},
+         "thorough": {"cases": thorough}, "search": {"cases": 3000}, "nopar": nopar}
+    d["args"].update(kw)
+    return d
+
+
+LAYOUT = ["layout", "outcome", "tl"]
+TRACE = LAYOUT + ["trace", "thread"]
+
 PROPS = {
     "C01": {
         "statement": "Scenario.C01_isolation: in every trace of the plan of every registration sequence, two systems open at the same time have non-conflicting declarations",
-        "engines": [plan("plan,flat,funnel,batch")],
-        "aspects": ["layout", "outcome", "tl"],
-        "also": [],
+        "engines": [plan("plan,flat,funnel,batch"), trace("flat,base,batch,funnel")],
+        "aspects": TRACE,
         "assumptions": [RAYON, CELL],
     },
     "C02": {
-        "statement": "Scenario.C02_dependencies",
-        "engines": [plan("deps,plan,batch")],
-        "aspects": ["layout", "outcome", "tl"],
+        "statement": "Scenario.C02_dependencies: D A precedes F B in every trace whenever B was registered with A among its dependencies",
+        "engines": [plan("deps,plan,batch"), trace("deps,base", quick=40, **{"long-holds": True})],
+        "aspects": TRACE,
         "assumptions": [RAYON],
     },
     "C03": {
         "statement": "Scenario.C03_barriers",
-        "engines": [plan("barriers,plan,batch")],
-        "aspects": ["layout", "outcome", "tl"],
+        "engines": [plan("barriers,plan,batch"), trace("barriers,batch", quick=40)],
+        "aspects": TRACE,
         "assumptions": [RAYON],
     },
     "C04": {
         "statement": "Scenario.C04_exactly_once",
-        "engines": [plan("funnel,plan,batch,tl")],
-        "aspects": ["layout", "outcome", "tl"],
+        "engines": [plan("funnel,plan,batch,tl"), trace("funnel,batch,tl,base", quick=50, **{"partial-modes": True})],
+        "aspects": TRACE,
         "assumptions": [RAYON],
+    },
+    "C05": {
+        "statement": "Scenario.C05_schedule_independence: every trace of the parallel plan has the effect of the sequential trace, given that events of non-conflicting systems commute",
+        "engines": [trace("flat,base,batch,tl", quick=80, rounds=4), trace("flat,base,batch", quick=30, nopar=True)],
+        "aspects": TRACE + ["effects"],
+        "assumptions": [RAYON, CELL, "the harness systems' update function (sys.rs::mix / Model/Effect.lean::mix) stands for 'behaviour that depends only on own state and declared resources'"],
+    },
+    "C07": {
+        "statement": "C07_batch_reads/_writes (the batch accessor is exactly controller ∪ inner), C07_conflict_lifts, C07_nested_wf",
+        "engines": [plan("batch,plan"), trace("batch", quick=60)],
+        "aspects": TRACE,
+        "assumptions": [RAYON, CELL],
     },
     "C10": {
         "statement": "C10_skipped_stage_justified (+ simulation by the five-table builder)",
@@ -50,9 +71,21 @@ PROPS = {
         "aspects": ["layout", "outcome", "maxthreads"],
         "assumptions": [],
     },
+    "C12": {
+        "statement": "Scenario.C12_thread_local_last (order part); thread placement by the trace model",
+        "engines": [plan("tl,plan"), trace("tl,base,kf1", quick=60)],
+        "aspects": TRACE,
+        "assumptions": [RAYON, "pool.install runs its closure on a pool worker when called from outside the pool"],
+    },
+    "C14": {
+        "statement": "C14_panicked_iff, C14_payload_source, C14_dependents_dont_run over PTraces",
+        "engines": [trace("flat,base,batch,tl", quick=50, panics=True)],
+        "aspects": TRACE,
+        "assumptions": [RAYON, "rayon re-raises a job's panic in the caller of install after the stage's started jobs finished; unwinding drops guards; RwLock read locks do not poison"],
+    },
     "C18": {
         "statement": "add_panics_iff / add_ok / resolve_error_iff",
-        "engines": [plan("malformed,funnel,plan", max_n=0)],
+        "engines": [plan("malformed,funnel,plan")],
         "aspects": ["outcome"],
         "assumptions": ["panic payloads are compared as text (quoted name)"],
     },
